@@ -18,6 +18,7 @@ import csv
 from fractions import Fraction
 
 from .core import AnalysisError, loc, norm_src, walk_no_nested, dotted, str_const
+from .core import Inliner as _Inliner
 from .symx import Interp, Obj, Path, PList, PDict, RLE, RLECat, NArr, _segs, Opaque, Unsupported, explore, Abort, NSYM, canon
 from .rat import Rat, K, Idx
 from .nphooks import np_hook
@@ -589,25 +590,23 @@ def form_greenhouse(index, rep):
     foods = [c for c in walk_no_nested(pf) if isinstance(c, ast.Call) and dotted(c.func) == "Food"]
     ok = len(foods) == 1
     if ok:
-        defs = {}
-        for st in walk_no_nested(pf):
-            if isinstance(st, ast.Assign):
-                for t in st.targets:
-                    if isinstance(t, ast.Name):
-                        defs.setdefault(t.id, []).append(norm_src(st.value))
-                    if isinstance(t, ast.Tuple):
-                        for k, e in enumerate(t.elts):
-                            if isinstance(e, ast.Name):
-                                defs.setdefault(e.id, []).append(f"{norm_src(st.value)}#{k}")
+        inl_pf = _Inliner(pf)
         kw = {k.arg: k.value for k in foods[0].keywords}
         for lane, slot in (("kcals", 0), ("fat", 1), ("protein", 2)):
             c = kw.get(lane)
-            ok = ok and isinstance(c, ast.Call) and dotted(c.func) == "np.multiply" and len(c.args) == 2 and all(isinstance(a, ast.Name) for a in c.args)
+            ok = ok and isinstance(c, ast.Call) and dotted(c.func) == "np.multiply" and len(c.args) == 2
             if ok:
-                srcs = [defs.get(a.id, []) for a in c.args]
-                per_ha = [s_ for s_ in srcs if any(x.startswith("greenhouses.get_greenhouse_yield_per_ha(") and x.endswith(f"#{slot}") for x in s_)]
-                ar = [s_ for s_ in srcs if any(x.startswith("greenhouses.get_greenhouse_area(") for x in s_)]
-                ok = len(per_ha) == 1 and len(ar) == 1
+                alts = [inl_pf.alternatives(a_) or ["?"] for a_ in c.args]
+                # one factor: slot `slot` of this run's Greenhouses(...).get_greenhouse_yield_per_ha(...) (or zeros when there is no cropland);
+                # the other: the same object's get_greenhouse_area(...)
+                def is_yield(al):
+                    return all((a_.startswith("Greenhouses(") and ".get_greenhouse_yield_per_ha(" in a_ and a_.endswith(f"[{slot}]")) or a_.startswith("np.zeros(") for a_ in al) \
+                        and any(a_.startswith("Greenhouses(") for a_ in al)
+
+                def is_area(al):
+                    return all(a_.startswith("Greenhouses(") and ".get_greenhouse_area(" in a_ for a_ in al)
+
+                ok = (is_yield(alts[0]) and is_area(alts[1])) or (is_yield(alts[1]) and is_area(alts[0]))
     rep.check(ok, rule, "greenhouse crops handed over = yield per hectare x greenhouse area (same lane, same run)",
               "time_consts['greenhouse_crops'] is not the per-hectare yield of each nutrient x the greenhouse area", loc=loc(PARAMS, pf))
 
@@ -751,7 +750,11 @@ def stock(index, rep, start):
             isinstance(v, (Rat, Path)) and it.to_rat(v) == K_(("c", "END_OF_MONTH_STOCKS", nm)) for v, nm in zip(lst.items, names))
     rep.check(ok, rule, "stock list index k = calendar month k+1", "the end-of-month stock list is not filled January..December in order", loc=loc(SF, init))
     p = index.func(PARAMS, "Parameters.init_stored_food")
-    rep.check("stored_food.calculate_stored_food_to_use(self.SIMULATION_STARTING_MONTH_NUM)" in norm_src(p), rule, "called with the simulation start month",
+    from .core import Inliner as _Inl
+    inl_sf = _Inl(p)
+    calls_sf = [inl_sf.src(c_) for c_ in walk_no_nested(p) if isinstance(c_, ast.Call) and isinstance(c_.func, ast.Attribute) and c_.func.attr == "calculate_stored_food_to_use"]
+    rep.check(len(calls_sf) == 1 and calls_sf[0].startswith("StoredFood(") and calls_sf[0].endswith(".calculate_stored_food_to_use(self.SIMULATION_STARTING_MONTH_NUM)"),
+              rule, "called with the simulation start month",
               "stored food is not computed for the simulation's start month", loc=loc(PARAMS, p))
     rep.require_min(rule, 4)
 
